@@ -4,8 +4,8 @@
    abstract component: any state type [sk] with any [sk_incr], [sk_est],
    [sk_clear] and initial value.  The real `cms::CountMinSketch` is one such
    instance; theorems hold for every instance.  What the policy tracks as
-   residents is window ++ probationary ++ protected.  Finding F-21 (evict never
-   looks at the window) is modelled as it is.  No proofs here. *)
+   residents is window ++ probationary ++ protected.  evict drains main first and
+   then the window tail.  No proofs here. *)
 From Fibre Require Import Common.Base Cache.PolicySpec Cache.PolicyLru Cache.PolicySlru.
 
 (* TinyLfuPolicy::new *)
@@ -68,12 +68,13 @@ Section TinyLfu.
     if ll_has k (tl_win s) then mkTlfu (ll_remove k (tl_win s)) (tl_main s) (tl_sk s)
     else mkTlfu (tl_win s) (slru_remove k (tl_main s)) (tl_sk s).
 
-  (* `if cost_to_free == 0 { return (vec![], 0) }` then main.evict_items: the
-     window is never considered (F-21) *)
+  (* `if cost_to_free == 0 { return (vec![], 0) }`, then main.evict_items, then
+     `while total_cost_freed < cost_to_free { window.pop_back() }` *)
   Definition tl_evict (cap n : N) (s : tlfu) : tlfu * list N * N :=
     if N.eqb n 0 then (s, [], 0)
     else let '(m', vs, f) := slru_evict (tl_main_prot_capacity cap) n (tl_main s) in
-         (mkTlfu (tl_win s) m' (tl_sk s), vs, f).
+         let '(vs2, f2, rest) := pop_while n f (rev (tl_win s)) in
+         (mkTlfu (rev rest) m' (tl_sk s), vs ++ vs2, f2).
 
   Definition tl_step (cap : N) (s : tlfu) (cl : call) : tlfu * out :=
     match cl with
